@@ -401,7 +401,15 @@ impl C08 {
         let listener = SimListener::new();
         let mut notify = NotifySender::new();
         let server = Server::new(listener.clone(), notify.clone(), source.clone());
-        let server_task = tokio::spawn(server.run());
+        // An application may keep receivers of its own (NotifySender::subscribe
+        // is public); one that never reads must not affect the connections.
+        let _idle_subscriber = if matches!(kind, RunKind::Random) && ctx.chance(1, 3) {
+            counters.bump("fault_idle_extra_subscriber");
+            Some(notify.subscribe())
+        } else {
+            None
+        };
+        let mut srv = Box::pin(server.run());
 
         let c2s: Pipe = new_pipe("c->s", true, usize::MAX);
         let s2c: Pipe = new_pipe("s->c", true, cfg.out_cap);
@@ -414,6 +422,17 @@ impl C08 {
         }
         let sock = SimSocket { rx: c2s.clone(), tx: s2c.clone(), ctx: ctx.clone(), updates: Default::default() };
         listener.push(sock);
+        // The accept loop runs once: the connection is accepted and its task
+        // spawned, but that task has not been polled yet.
+        let _ = futures_util::poll!(srv.as_mut());
+        let mut last_notify_mark: Option<usize> = None;
+        if matches!(kind, RunKind::Random) && ctx.chance(1, 6) {
+            last_notify_mark = Some(0);
+            notify.notify();
+            counters.bump("fault_notify_before_first_poll_of_connection");
+            ctx.ev(3, 0, || "notify (connection accepted, its task not polled yet)".into());
+        }
+        let server_task = tokio::spawn(srv);
         tokio::task::yield_now().await;
         tokio::task::yield_now().await;
 
@@ -436,7 +455,6 @@ impl C08 {
                 if cfg.dynamic && ctx.chance(1, 3) { 1 } else { 0 },
             ],
         };
-        let mut last_notify_mark: Option<usize> = None;
         let mut sender_gone = false;
         let mut closed = false;
 
